@@ -34,6 +34,7 @@ from abc import abstractmethod, ABCMeta
 import textwrap
 import threading
 import inspect
+import weakref
 import types
 import typing
 
@@ -41,16 +42,41 @@ if TYPE_CHECKING:
     from semantiva.logger import Logger
 
 
-# A thread-safe registry mapping category names to component classes
-_COMPONENT_REGISTRY: Dict[str, List[Type[_SemantivaComponent]]] = {}
-_REGISTRY_LOCK = threading.Lock()
+# A thread-safe registry mapping category names to component classes. Classes are
+# held through weak references: node, adapter and shorthand classes are generated
+# anew for every pipeline run, and a strong registry would keep every one of them
+# (and everything they reference) alive for the life of the process.
+_COMPONENT_REGISTRY: Dict[str, List["weakref.ReferenceType[type]"]] = {}
+_REGISTRY_LOCK = threading.RLock()
+
+
+def _forget_component(category: str, ref: "weakref.ReferenceType[type]") -> None:
+    """Drop the registry entry of a component class that has been collected."""
+    with _REGISTRY_LOCK:
+        refs = _COMPONENT_REGISTRY.get(category)
+        if refs is not None:
+            try:
+                refs.remove(ref)
+            except ValueError:
+                pass
 
 
 def get_component_registry() -> Dict[str, List[Type[_SemantivaComponent]]]:
     """
     Returns the global component registry, which maps component categories to their respective classes.
+
+    The returned mapping is a snapshot of the component classes that are currently alive.
     """
-    return _COMPONENT_REGISTRY
+    snapshot: Dict[str, List[Type[_SemantivaComponent]]] = {}
+    with _REGISTRY_LOCK:
+        for category, refs in _COMPONENT_REGISTRY.items():
+            alive = []
+            for ref in refs:
+                component = ref()
+                if component is not None:
+                    alive.append(component)
+            snapshot[category] = alive
+    return snapshot
 
 
 class _SemantivaComponentMeta(ABCMeta):
@@ -75,7 +101,11 @@ class _SemantivaComponentMeta(ABCMeta):
                 return
             if cat:
                 with _REGISTRY_LOCK:
-                    _COMPONENT_REGISTRY.setdefault(cat, []).append(cls)
+                    _COMPONENT_REGISTRY.setdefault(cat, []).append(
+                        weakref.ref(
+                            cls, lambda ref, _cat=cat: _forget_component(_cat, ref)
+                        )
+                    )
 
 
 class _SemantivaComponent(metaclass=_SemantivaComponentMeta):
